@@ -194,6 +194,7 @@ def install_events():
     def fs_post(ev, c, res, simulator, market):
         if market is not ev.target_market or not (ev.trigger_time <= c["t"] < ev.trigger_time + ev.shock_time_length):
             raise ContractViolation("FundamentalPriceShock.hooked_before_step_for_market", "shock applied outside its window or to another market", dict(t=c["t"], market=market.market_id))
+        ev.__dict__.setdefault("_verif_applied", []).append(c["t"])
         exp = c["f"] * (1 + ev.price_change_rate)
         if abs(market.get_fundamental_price(c["t"]) - exp) > 1e-9 * max(1.0, abs(exp)):
             raise ContractViolation("FundamentalPriceShock.hooked_before_step_for_market", "fundamental price multiplied by (1 + rate)", (market.get_fundamental_price(c["t"]), exp))
